@@ -296,6 +296,13 @@ def run(chk):
     timings = {}
     t0 = time.time()
     ok, out = vlib.standard_proof_stage(chk, "C19", THEOREMS)
+    # further statement files Properties/C19?.v (C19K: CUID under K concurrent callers,
+    # with the source pin over the regenerated Gen/CuidPos.v)
+    from checks import hist_common
+    extra = hist_common.extra_suffixes("C19")
+    for sfx in extra:
+        kok, kout = vlib.standard_proof_stage(chk, "C19" + sfx, hist_common.theorem_names("C19" + sfx))
+        ok, out = ok and kok, out + kout
     proof_ok = ok
     timings["proof_stage_s"] = round(time.time() - t0, 1)
     t0 = time.time()
@@ -408,6 +415,12 @@ def run(chk):
         chk_ok = rc == 0 and "* Axioms: <none>" in cout
         chk.oblige("coqchk re-checks the .vo closure of Properties/C19 with no axioms", chk_ok)
         chk.coverage["coqchk_summary"] = cout[-700:]
+        for sfx in extra:
+            with vlib.lock("coq"):
+                rc, cout = vlib.sh(["timeout", "1500", "coqchk", "-silent", "-o", "-Q", ".", "Sessions", "Sessions.Properties.C19" + sfx], cwd=vlib.COQ)
+            ok2 = rc == 0 and "* Axioms: <none>" in cout
+            chk.oblige("coqchk re-checks the .vo closure of Properties/C19%s with no axioms" % sfx, ok2)
+            chk_ok = chk_ok and ok2
         timings["coqchk_s"] = round(time.time() - t0, 1)
         proof_ok = proof_ok and chk_ok
 
